@@ -28,6 +28,7 @@ import (
 //	dput <chain> <id> | dcheck <chain> <id>     the real PutDoneTx / CheckDoneTx on the committed state -> ok | done | free
 //	ethsetup n=<nonce> chain=<c> m=<extra>,<extra>,..   build a synthetic Ethereum state whose contract storage commits to the
 //	       given messages and install a header with that state root through the real eth SyncGenesisHeader   -> ok | reject
+//	dryblack|drywhite n=<nonce> s=<signers> <chain>   the same call in a discarded execution (pre-exec: nothing committed)
 //	import n=<nonce> th=<txhash> s=<signers> rl=<id|bad> src=<chain> h=<height> px=<proof> hd=<header> ex=<extra>
 //	       pv=<0|1>  (the generator's claim: px is a valid eth storage proof of ex at height h of an eth chain set up by ethsetup)
 //	       dec=0 | dec=1 <txHash> <crossChainID> <fromContract> <toChain> <toContract> <method> <args>
@@ -207,6 +208,28 @@ func (f *ccmFam) Exec(r *hx.Run, op []string) string {
 		w.delSideChain(u64(op[1]))
 		delete(f.reg, u64(op[1]))
 		return "ok"
+	case "dryblack", "drywhite":
+		// BlackChain / WhiteChain executed the way a pre-execution does: own transaction cache, never committed
+		_, n := kv(op[1])
+		_, sg := kv(op[2])
+		chain := u64(op[3])
+		sink := common.NewZeroCopySink(nil)
+		(&scom.BlackChainParam{ChainID: chain}).Serialization(sink)
+		method := scom.BLACK_CHAIN
+		if op[0] == "drywhite" {
+			method = scom.WHITE_CHAIN
+		}
+		tx := mkTx(uint32(u64(n)), utils.CrossChainManagerContractAddress, method, sink.Bytes())
+		before := w.writeSet()
+		err := w.preExec(tx, w.signerAddrs(sg))
+		if len(diffKeys(before, w.writeSet())) != 0 {
+			r.Viol("C21:discarded-execution-changed-state", fmt.Sprintf("a pre-executed %s(%d) changed committed storage", method, chain))
+		}
+		b, _ := scom.CheckIfChainBlacked(w.view(), chain)
+		if b != f.black[chain] {
+			r.Viol("C21:discarded-execution-changed-blacklist", fmt.Sprintf("after a discarded %s(%d) CheckIfChainBlacked answers %v; the committed blacklist says %v", method, chain, b, f.black[chain]))
+		}
+		return classify(err)
 	case "black", "white":
 		_, n := kv(op[1])
 		_, s := kv(op[2])
@@ -277,12 +300,15 @@ func (f *ccmFam) Exec(r *hx.Run, op []string) string {
 	case "ethsetup":
 		var nonce uint32
 		var chain uint64
+		router := uint64(2)
 		var extras [][]byte
 		for _, t := range op[1:] {
 			k, v := kv(t)
 			switch k {
 			case "n":
 				nonce = uint32(u64(v))
+			case "r":
+				router = u64(v)
 			case "chain":
 				chain = u64(v)
 			case "m":
@@ -295,7 +321,12 @@ func (f *ccmFam) Exec(r *hx.Run, op []string) string {
 		if err != nil {
 			return "bad-op:" + err.Error()
 		}
-		gb, err := ethGenesisWithRoot(es.root)
+		var gb []byte
+		if router == 2 {
+			gb, err = ethGenesisWithRoot(es.root)
+		} else { // PoSA routers (bsc, heco, pixiechain, hsc, bytom): parlia-style genesis with the same state root
+			gb, err = posaGenesisRoot(0, ethGenesisHeight, es.root)
+		}
 		if err != nil {
 			return "bad-op:" + err.Error()
 		}
@@ -568,16 +599,36 @@ func (f *ccmFam) Gen(r *hx.Run) {
 		nCons := []int{1, 2, 3, 4, 4, 5, 7}[rng.Intn(7)]
 		nCand := rng.Intn(3)
 		r.Do(fmt.Sprintf("peers %d %d", nCons, nCand))
+		curH := uint32(100)
+		setH := func(h uint32) {
+			curH = h
+			r.Do(fmt.Sprintf("height %d", h))
+		}
+		// boundary-heavy relay-chain heights (router start block, fork-height candidates, integer limits)
+		heightSet := []uint32{0, 1, 100, 18822999, 18823000, 18823001, 19954184, 19954185, 19999999, 20000000, 20000001,
+			35999999, 36000000, 36000001, 100000000, 2147483647, 2147483648, 4294967295}
+		laterHeight := func() uint32 { // a strictly larger height from the set, usually much larger
+			var bigger []uint32
+			for _, h := range heightSet {
+				if h > curH {
+					bigger = append(bigger, h)
+				}
+			}
+			if len(bigger) == 0 {
+				return curH
+			}
+			return bigger[len(bigger)/2+rng.Intn(len(bigger)-len(bigger)/2)]
+		}
 		testnet := rng.Chance(1, 8)
 		if testnet {
 			r.Do("net test")
 			if rng.Bool() {
-				r.Do(fmt.Sprintf("height %d", []uint32{19954184, 19954185, 19954186, 100}[rng.Intn(4)]))
+				setH([]uint32{19954184, 19954185, 19954186, 100}[rng.Intn(4)])
 			}
 		} else {
 			r.Do("net main")
 			if rng.Chance(1, 6) {
-				r.Do(fmt.Sprintf("height %d", []uint32{18822999, 18823000, 18823001}[rng.Intn(3)]))
+				setH([]uint32{18822999, 18823000, 18823001}[rng.Intn(3)])
 			}
 		}
 		// chains
@@ -608,7 +659,7 @@ func (f *ccmFam) Gen(r *hx.Run) {
 		var pool []*msg
 		for i := 0; i < 4; i++ {
 			to := universe[rng.Intn(len(universe))]
-			if bigCase && i < 2 {
+			if (bigCase && i < 2) || c%4 == 3 {
 				to = universe[0]
 			}
 			p := scom.MakeTxParam{TxHash: rng.Bytes(1 + rng.Intn(32)), CrossChainID: rng.Bytes([]int{0, 1, 8, 32, 33}[rng.Intn(5)]),
@@ -638,33 +689,50 @@ func (f *ccmFam) Gen(r *hx.Run) {
 			}
 		}
 		ethSetup := map[uint64]bool{}
+		ethRouter := map[uint64]uint64{} // a chain whose light-client records were written by one router keeps that router
+		// routers whose cross-chain handler verifies an Ethereum storage proof against a synced header: eth and the PoSA
+		// family (bsc, heco, pixiechain, hsc, bytom); hsc and bytom are gated by the router start block
+		ethLike := map[uint64]bool{2: true, 6: true, 7: true, 19: true, 20: true, 22: true}
+		doEthSetup := func(ch, rt uint64) {
+			var ms []string
+			for _, m := range pool {
+				ms = append(ms, hx.Hex(m.raw))
+			}
+			back := curH
+			if (rt == 20 || rt == 22) && !testnet && curH < 18823000 {
+				setH(18823000) // the header-sync entrance has the same start-block gate
+			}
+			nonce++
+			if r.Do(fmt.Sprintf("ethsetup n=%d chain=%d r=%d m=%s", nonce, ch, rt, strings.Join(ms, ","))) == "ok" {
+				ethSetup[ch] = true
+				ethRouter[ch] = rt
+			}
+			if back != curH {
+				setH(back)
+			}
+		}
 		regOne := func(ch uint64) {
 			var rt uint64
 			switch rng.Intn(10) {
 			case 0, 1, 2, 3, 4, 5:
 				rt = 0
-			case 6, 7:
+			case 6:
 				rt = 2
+			case 7:
+				rt = []uint64{6, 7, 19, 20, 22}[rng.Intn(5)]
 			default:
 				rt = routers[rng.Intn(len(routers))]
 			}
 			if ethSetup[ch] {
-				// a chain whose light-client records were written by the eth router keeps that router: the routers share
-				// record families keyed only by the chain id, and another router reading eth-format header records is
-				// outside the properties checked here (observed: the zilliqa handlers dereference a nil BlockHeader)
-				rt = 2
+				// a chain whose light-client records were written by one router keeps that router: the routers share record
+				// families keyed only by the chain id, and another router reading foreign header records is outside the
+				// properties checked here (observed: the zilliqa handlers dereference a nil BlockHeader on eth records)
+				rt = ethRouter[ch]
 			}
 			chainRouter[ch] = rt
 			r.Do(fmt.Sprintf("reg %d %d", ch, rt))
-			if rt == 2 && !ethSetup[ch] && rng.Chance(3, 4) {
-				var ms []string
-				for _, m := range pool {
-					ms = append(ms, hx.Hex(m.raw))
-				}
-				nonce++
-				if r.Do(fmt.Sprintf("ethsetup n=%d chain=%d m=%s", nonce, ch, strings.Join(ms, ","))) == "ok" {
-					ethSetup[ch] = true
-				}
+			if ethLike[rt] && !ethSetup[ch] && rng.Chance(3, 4) {
+				doEthSetup(ch, rt)
 			}
 		}
 		for _, u := range universe {
@@ -679,20 +747,45 @@ func (f *ccmFam) Gen(r *hx.Run) {
 			if !ethSetup[universe[1]] {
 				chainRouter[universe[1]] = 2
 				r.Do(fmt.Sprintf("reg %d 2", universe[1]))
-				var ms []string
-				for _, m := range pool {
-					ms = append(ms, hx.Hex(m.raw))
-				}
-				nonce++
-				if r.Do(fmt.Sprintf("ethsetup n=%d chain=%d m=%s", nonce, universe[1], strings.Join(ms, ","))) == "ok" {
-					ethSetup[universe[1]] = true
-				}
+				doEthSetup(universe[1], 2)
 			}
 			if es := f.eth[universe[1]]; es != nil && ethSetup[universe[1]] {
 				for _, m := range []*msg{pool[0], pool[1], pool[0]} { // big, small, big again (rejected: done)
 					nonce++
 					res := r.Do(f.importOp(nonce, "0", "0", universe[1], ethGenesisHeight, es.proofs[hex.EncodeToString(m.raw)], nil, m, 1))
 					r.Nontrivial(fmt.Sprintf("big/%d/%s", len(m.p.Args), strings.Fields(res)[0]))
+				}
+			}
+		}
+		if !testnet && c%4 == 3 {
+			// the router start block, exactly: a chain on a gated router (hsc, bytom) with valid proofs, imports at
+			// start-1 (must be rejected by the gate), start and start+1 (executed)
+			gr := []uint64{20, 22}[rng.Intn(2)]
+			gch := universe[2]
+			dst := universe[0]
+			r.Do(fmt.Sprintf("reg %d 0", dst))
+			chainRouter[dst] = 0
+			if !ethSetup[gch] {
+				chainRouter[gch] = gr
+				r.Do(fmt.Sprintf("reg %d %d", gch, gr))
+				doEthSetup(gch, gr)
+			}
+			if es := f.eth[gch]; es != nil && ethSetup[gch] {
+				i := 0
+				for _, hh := range []uint32{18822999, 18823000, 18823001, 18822998} {
+					m := pool[i%len(pool)]
+					i++
+					if !m.dec {
+						continue
+					}
+					m2 := *m
+					m2.p.ToChainID = dst
+					if pr, ok := es.proofs[hex.EncodeToString(m.raw)]; ok && m.p.ToChainID == dst {
+						setH(hh)
+						nonce++
+						res := r.Do(f.importOp(nonce, "0", "0", gch, ethGenesisHeight, pr, nil, m, 1))
+						r.Nontrivial(fmt.Sprintf("gate/%d/%d/%s", ethRouter[gch], hh, strings.Fields(res)[0]))
+					}
 				}
 			}
 		}
@@ -714,7 +807,7 @@ func (f *ccmFam) Gen(r *hx.Run) {
 			}
 			var ethRegs []uint64
 			for _, c := range regs {
-				if chainRouter[c] == 2 && ethSetup[c] {
+				if ethLike[chainRouter[c]] && ethSetup[c] {
 					ethRegs = append(ethRegs, c)
 				}
 			}
@@ -764,7 +857,7 @@ func (f *ccmFam) Gen(r *hx.Run) {
 				var proof, hdr []byte
 				pv := 0
 				h := cp.h
-				if rt, ok := chainRouter[cp.src]; ok && rt == 2 && ethSetup[cp.src] {
+				if rt, ok := chainRouter[cp.src]; ok && ethLike[rt] && ethSetup[cp.src] {
 					// the eth router: a real storage proof against the installed header, or a tampered one
 					h = ethGenesisHeight
 					es := f.eth[cp.src]
@@ -821,6 +914,14 @@ func (f *ccmFam) Gen(r *hx.Run) {
 				}
 				out := strings.Fields(res)[0]
 				r.Nontrivial(out + "/" + cls + "/" + fmt.Sprint(f.black[cp.src], cp.m.dec && f.black[cp.m.p.ToChainID]))
+				if out == "ok" && rng.Chance(1, 2) {
+					// the same submission again, immediately and at a later, much larger relay-chain height
+					if rng.Bool() {
+						setH(laterHeight())
+					}
+					nonce++
+					r.Do(f.importOp(nonce, signers, rl, cp.src, h, proof, hdr, cp.m, pv))
+				}
 				if out == "ok" && rng.Chance(2, 3) {
 					// replay: the same message again (same id), as a new vote round with another height or another content
 					m2 := cp.m
@@ -845,6 +946,16 @@ func (f *ccmFam) Gen(r *hx.Run) {
 					kind = "white"
 				}
 				r.Do(fmt.Sprintf("%s n=%d s=%s %d", kind, nonce, signer, ch))
+				if rng.Chance(1, 3) {
+					// a discarded execution (pre-execution / abandoned block) of the opposite operation: nothing is committed,
+					// so the imports that follow must still see the committed blacklist
+					other := "white"
+					if kind == "white" {
+						other = "black"
+					}
+					nonce++
+					r.Do(fmt.Sprintf("dry%s n=%d s=op %d", other, nonce, ch))
+				}
 			case x == 17 && rng.Bool(): // the done records directly: related ids on the same and on another chain
 				c1 := universe[rng.Intn(len(universe))]
 				c2 := universe[rng.Intn(len(universe))]
@@ -865,10 +976,10 @@ func (f *ccmFam) Gen(r *hx.Run) {
 					regOne(ch)
 				}
 			default:
-				if testnet {
-					r.Do(fmt.Sprintf("height %d", []uint32{19954184, 19954185, 100, 19954190}[rng.Intn(4)]))
+				if rng.Chance(2, 3) {
+					setH(laterHeight()) // relay-chain heights mostly grow
 				} else {
-					r.Do(fmt.Sprintf("height %d", []uint32{18822999, 18823000, 100, 30000000}[rng.Intn(4)]))
+					setH(heightSet[rng.Intn(len(heightSet))])
 				}
 			}
 		}
